@@ -49,4 +49,16 @@ theorem setStr_str_ne (s : St) {id i : Nat} (x : OutStream) (h : i ≠ id) : (s.
 @[simp] theorem setStr_closed (s : St) (id : Nat) (x : OutStream) : (s.setStr id x).closed = s.closed := rfl
 @[simp] theorem setStr_side (s : St) (id : Nat) (x : OutStream) : (s.setStr id x).side = s.side := rfl
 
+theorem wakeOrder_perm (s : St) (order : List Nat) : (wakeOrder s order).Perm (s.keys.filter (isWaiting s)) := by
+  unfold wakeOrder
+  simp only
+  split
+  · rename_i h; exact List.isPerm_iff.mp h
+  · exact List.Perm.refl _
+
+theorem mem_wakeOrder {s : St} {order : List Nat} {i : Nat} :
+    i ∈ wakeOrder s order ↔ i ∈ s.keys ∧ (s.str i).state = .waiting := by
+  rw [(wakeOrder_perm s order).mem_iff, List.mem_filter]
+  simp [isWaiting]
+
 end GrpcProofs.Loopy
